@@ -169,7 +169,7 @@ def main():
             slug = hist_slug or ("C03-informedtrees-plannerdata-pins-states" if (pl in ("BITstar", "ABITstar", "AITstar") and "D" in opnames) else None) or (KNOWN_ML_LEAK if (pl in ("QRRT", "QRRTStar") and live and 0 < live[0] <= nsolve) else None)
             pred(j, "state allocation counter is %s after the planner and problem definitions were destroyed (leak)" % (live[0] if live else "?"), slug)
         if live and live[2]: pred(j, "more states freed than allocated at some point (double free)")
-        prev = None; oldq = set(); fresh = False; switched_without_clear = False   # fresh: clear()/clearQuery() was the last lifecycle op
+        prev = None; oldq = set(); fresh = False; switched_without_clear = False; accepted_query = None   # fresh: clear()/clearQuery() was the last lifecycle op
         for k, op in enumerate(ops):
             o = op["op"]
             if o in ("C", "Q"): fresh = True; switched_without_clear = False; prev = None if o == "C" else prev
@@ -184,6 +184,10 @@ def main():
                 further_max[pl] = max(further_max[pl], st["further"])
                 if st["further"] > MAX_FURTHER: pred(j, "solve() evaluated the termination condition %d more times after it first reported true (op %d '%s')" % (st["further"], k, o))
             if st["secs"] > MAX_SECS: pred(j, "solve() took %.1f s although the condition fired (op %d '%s')" % (st["secs"], k, o))
+            # a resumed solve on an unchanged query must not reject the start / goal it accepted before
+            if st["code"] in (1, 2) and not fresh and accepted_query == op["query"] and not switched_without_clear:
+                pred(j, "a resumed solve() on the same query returned status %d (invalid start / goal) although the previous solve() accepted it (op %d '%s')" % (st["code"], k, o), "C03-bfmt-cannot-resume" if pl == "BFMT" else None)
+            if st["code"] not in (1, 2, 3): accepted_query = op["query"]
             sol = st["code"] in (5, 6)
             if sol and (not st["has"] or not op["P"]): pred(j, "status %d reported but the problem definition holds no (or an empty) solution path (op %d '%s')" % (st["code"], k, o), KNOWN_NEWPDEF if switched_without_clear else None)
             if not sol and st["after"] != st["before"]: pred(j, "status %d is not a solution status but %d path(s) were added (op %d '%s')" % (st["code"], st["after"] - st["before"], k, o))
